@@ -87,6 +87,10 @@ func (ex *Exec) callByKey(fr *Frame, key string, callee *ssa.Function, args, bin
 		k(st, r)
 		return
 	}
+	if c := ex.specs.Contracts["extern "+key]; c != nil && ex.specs.Contracts[key] == nil {
+		ex.callContract(fr, c, nil, args, bindings, resT, pos, st, k)
+		return
+	}
 	if c := ex.specs.Contracts[key]; c != nil && !c.Inline && !(callee != nil && callee == ex.fn && fr.top && false) {
 		ex.callContract(fr, c, callee, args, bindings, resT, pos, st, k)
 		return
